@@ -220,3 +220,33 @@ Proof.
   split; [vm_compute; reflexivity|].
   destruct (zig_u_sym_exact 0 eq_refl) as [_ [H _]]. rewrite H. cbn [N.shiftr Z.of_N]. rewrite Rmult_0_l. apply Rminus_0_l.
 Qed.
+
+(* ================= seeded initial positions: prefix property from the seed alone (Proofs/ZigInit.v) ================= *)
+From MiniMcmc Require Import Proofs.ZigInit.
+
+(* the n1*d draws of the smaller request are the first n1*d draws of the larger request (same seed, same oracle list) *)
+Theorem C18_init_seeded_prefix_draws : forall (seed : N) (orc : list Z) (n1 n2 d : nat) (xs : list binary64) (st : zst),
+  normals 64 (n2 * d)%nat (zinit seed orc) = Some (xs, st) -> (n1 <= n2)%nat ->
+  exists st1 : zst, normals 64 (n1 * d)%nat (zinit seed orc) = Some (firstn (n1 * d)%nat xs, st1).
+Proof. exact init_seeded_prefix_draws. Qed.
+Print Assumptions C18_init_seeded_prefix_draws.
+
+(* the rows built from those first n1*d draws are the first n1 rows of the larger request, for every conversion *)
+Theorem C18_init_seeded_prefix_rows : forall (conv : binary64 -> Z) (seed : N) (orc : list Z) (n1 n2 d : nat)
+    (xs : list binary64) (st : zst),
+  normals 64 (n2 * d)%nat (zinit seed orc) = Some (xs, st) -> (n1 <= n2)%nat ->
+  init_model conv f_zero (firstn (n1 * d)%nat xs) n1 d = firstn n1 (init_model conv f_zero xs n2 d).
+Proof. exact init_seeded_prefix_rows. Qed.
+Print Assumptions C18_init_seeded_prefix_rows.
+
+(* init_with_seed(n1, d, seed) is the first n1 rows of init_with_seed(n2, d, seed), n1 <= n2, computed from the seed
+   alone: whenever the n2-row request succeeds, the n1-row request with the same seed and oracle list succeeds and its
+   rows are exactly the first n1 rows of the larger result *)
+Theorem C18_init_seeded_prefix : forall (conv : binary64 -> Z) (seed : N) (orc : list Z) (n1 n2 d : nat)
+    (xs : list binary64) (st : zst),
+  normals 64 (n2 * d)%nat (zinit seed orc) = Some (xs, st) -> (n1 <= n2)%nat ->
+  exists (xs1 : list binary64) (st1 : zst),
+    normals 64 (n1 * d)%nat (zinit seed orc) = Some (xs1, st1) /\
+    init_model conv f_zero xs1 n1 d = firstn n1 (init_model conv f_zero xs n2 d).
+Proof. exact init_seeded_prefix. Qed.
+Print Assumptions C18_init_seeded_prefix.
